@@ -623,13 +623,26 @@ namespace sim
 			// +----+------+------+----------+----------+----------+
 
 			char const* buf = m_udp_buffer.data();
+
+			// the header has to be complete. A truncated datagram is ignored
+			std::size_t const header_size = bytes_transferred < 5 ? 5
+				: buf[3] == 3 ? std::size_t(5 + std::uint8_t(buf[4]) + 2)
+				: 10;
+			if (bytes_transferred < header_size)
+			{
+				std::printf("truncated UDP ASSOCIATE header (%d bytes)\n", int(bytes_transferred));
+				m_udp_associate.async_receive_from(boost::asio::buffer(m_udp_buffer)
+					, m_udp_from, 0, std::bind(&socks_connection::on_read_udp, this, std::placeholders::_1, std::placeholders::_2));
+				return;
+			}
+
 			if (buf[2] != 0) std::printf("fragment != 0, not supported\n");
 
 			int const atyp = buf[3];
 			if (atyp == 3)
 			{
 				// hostname
-				int const len = buf[4];
+				int const len = std::uint8_t(buf[4]);
 
 				buf += 5;
 				bytes_transferred -= 5;
